@@ -79,9 +79,11 @@ func clean(gf *lfs.GitFilter, to io.Writer, from io.Reader, fileName string, fil
 		}
 		tracerx.Printf("%s exists", mediafile)
 	} else {
+		tools.VerifPoint("clean.rename.pre")
 		if err := os.Rename(tmpfile, mediafile); err != nil {
 			Panic(err, tr.Tr.Get("Unable to move %s to %s", tmpfile, mediafile))
 		}
+		tools.VerifPoint("clean.rename.post")
 
 		tracerx.Printf("Writing %s", mediafile)
 	}
